@@ -39,7 +39,7 @@ func mkpal(name string, cs []tcell.Color) *pal {
 
 func main() {
 	w := hc.Start("C16")
-	w.R.Rule = "complete enumeration: all 256 palette indices vs the xterm formula; every ColorNames/CSS keyword; all 2^24 RGB values through Hex/RGB/NewRGBColor/NewHexColor/TrueColor/CSS/GetColor/FromImageColor; FindColor for every enumerated RGB value (thorough: all 2^24, quick: the 2^18 six-bit lattice plus palette neighbours) against the 8/16/88/256 palettes and 32 seeded pseudo-random palettes, compared with an independent sRGB->XYZ(D65)->L*a*b* CIE76 minimiser. distinct_nontrivial = FindColor cases whose colour is not itself a palette member (a real search), each a distinct (colour,palette) pair"
+	w.R.Rule = "complete enumeration: all 256 palette indices vs the xterm formula; every ColorNames/CSS keyword; all 2^24 RGB values through Hex/RGB/NewRGBColor/NewHexColor/TrueColor/CSS/GetColor/FromImageColor; FromImageColor for all 65536 channel values in Gray16/RGBA64/NRGBA64/NRGBA/YCbCr/CMYK forms against image/color's RGBAModel; FindColor for every enumerated RGB value (thorough: all 2^24, quick: the 2^18 six-bit lattice plus palette neighbours) against the 8/16/88/256 palettes and 32 seeded pseudo-random palettes, compared with an independent sRGB->XYZ(D65)->L*a*b* CIE76 minimiser. distinct_nontrivial = FindColor cases whose colour is not itself a palette member (a real search), each a distinct (colour,palette) pair"
 	w.R.Assumptions = []string{"near-ties within 0.02 deltaE (0..100 scale) are accepted: the reference uses Lindbloom's sRGB matrix, the library go-colorful's", "the 16 ANSI colours are taken as the published xterm/HTML chart values (800000, 008000, ... C0C0C0, 808080, FF0000 ...)"}
 
 	if *hc.Replay != "" {
@@ -158,6 +158,33 @@ func main() {
 	}
 	w.AddDistinct(int64(hi - lo))
 	w.Sample(map[string]interface{}{"rgb_roundtrip_range": []int{lo, hi}})
+
+	// ---- part 2b: FromImageColor for colours with 16-bit channel precision ----
+	// (image/color defines the 8-bit value of any Color through RGBAModel; every one of the
+	// 65536 channel values, in grey, per-channel, half-transparent and YCbCr/CMYK forms)
+	if *hc.Shard == 1%*hc.NShards {
+		chk := func(c ic.Color, what string) bool {
+			w.R.Evaluations++
+			m := ic.RGBAModel.Convert(c).(ic.RGBA)
+			want := tcell.NewRGBColor(int32(m.R), int32(m.G), int32(m.B))
+			if got := tcell.FromImageColor(c); got != want {
+				w.Violation("from-image-color:"+what, fmt.Sprintf("FromImageColor(%s %#v) = %#x, image/color's 8-bit value is %#x", what, c, uint64(got), uint64(want)), nil)
+				return false
+			}
+			return true
+		}
+		ok := true
+		for v := 0; v < 65536 && ok; v++ {
+			u := uint16(v)
+			ok = chk(ic.Gray16{Y: u}, "Gray16") &&
+				chk(ic.RGBA64{R: u, G: u*7 + 1, B: 0xffff - u, A: 0xffff}, "RGBA64") &&
+				chk(ic.NRGBA64{R: u, G: 0xffff - u, B: u ^ 0x5a5a, A: 0x8000}, "NRGBA64") &&
+				chk(ic.NRGBA{R: uint8(v), G: uint8(v >> 8), B: uint8(v * 3), A: uint8(v>>4) | 1}, "NRGBA") &&
+				chk(ic.YCbCr{Y: uint8(v), Cb: uint8(v >> 8), Cr: uint8(v * 5)}, "YCbCr") &&
+				chk(ic.CMYK{C: uint8(v), M: uint8(v >> 8), Y: uint8(v * 11), K: uint8(v >> 3)}, "CMYK")
+		}
+		w.AddDistinct(65536 * 6)
+	}
 
 	// ---- part 3: FindColor ----
 	var pals []*pal
